@@ -47,6 +47,8 @@ const sentinelEv = "K/57344.0.0.0.57344/"
 type H struct {
 	r   *hx.Run
 	rng *gen.Rng
+	// forced schedules of the race cases that could / could not be forced (yield point reached in time)
+	raceForced, raceUnforced int
 }
 
 func run(r *hx.Run) error {
@@ -82,6 +84,11 @@ func run(r *hx.Run) error {
 	}
 	for i := 0; i < nr; i++ {
 		h.genRace(i)
+	}
+	if h.raceForced == 0 && h.raceUnforced > 0 {
+		// not one schedule could be forced: the yield point is gone (or the machine is unusable)
+		r.Case("race-yield")
+		r.Emit("raceyield never-reached", "never-reached")
 	}
 	ncq := 80
 	if r.Thorough {
